@@ -231,4 +231,14 @@ def main(argv=None) -> int:
 
 
 if __name__ == "__main__":
-    sys.exit(main())
+    try:
+        rc = main()
+    except SystemExit:
+        raise
+    except BaseException as e:  # noqa  - an uncaught Python error must never look like exit code 1 (violation)
+        import traceback
+
+        traceback.print_exc()
+        print(f"HARNESS-ERROR: the check itself failed: {type(e).__name__}: {e}")
+        rc = EXIT_HARNESS
+    sys.exit(rc)
